@@ -957,6 +957,13 @@ func TestVerif_C38(t *testing.T) {
 		groupWall[g] = fmt.Sprintf("%d inputs %.1fs", d.inputs-in0, time.Since(tg).Seconds())
 	}
 	rec.Set("group_inputs_wall", groupWall)
+	// ---- cross-session integrity: truncated-then-disconnect clients while canaries are busy
+	c38Cross(rec, r, pre)
+	if bad := k.check(true); len(bad) > 0 {
+		for _, b := range bad {
+			rec.Violation(c38Clause(b)+":cross/truncated-disconnect", "after the cross-session phase (clients that announce a packet, send less and disconnect): "+b, map[string]interface{}{"detail": b})
+		}
+	}
 	rec.Set("inputs_sent", d.inputs)
 	rec.Set("inputs_skipped_matching_established_hang", d.skipped)
 	rec.Set("hang_signatures_established", d.established)
